@@ -14,6 +14,10 @@ func (r *RootEntry) ToProtoUpdates(ctx context.Context, onlyNewOrUpdated bool) (
 
 	// updates
 	for _, cachUpdate := range cacheUpdates {
+		// the complete view does not contain what this very change deletes (as in the JSON and XML views)
+		if !onlyNewOrUpdated && cachUpdate.parentEntry.shouldDelete() {
+			continue
+		}
 		val, err := cachUpdate.Value()
 		if err != nil {
 			return nil, err
